@@ -555,10 +555,27 @@ func childMain(casesPath, outPath string) {
 	}
 	res.Answered = t.answered
 	// positive control: the node still works — the valid next block, announced as a whole, is adopted
+	// (delivered over a FRESH connection: the last hostile messages may have got the old one dropped — legitimately,
+	// and possibly asynchronously, when the node fetched an announced block and our answer did not decode)
 	next := remote[7]
+	if os.Getenv("C19_DIAG") != "" {
+		// diagnostic: was the connection the hostile stream ended on still alive?
+		oldAlive, _ := t.ping(0x7ffffffe)
+		last := cases[max(0, len(cases)-4):]
+		desc := ""
+		for _, c := range last {
+			desc += fmt.Sprintf(" [code %d %s]", c.Code, c.Class)
+		}
+		fmt.Fprintf(os.Stderr, "DIAG old connection alive=%v, last messages:%s\n", oldAlive, desc)
+	}
+	t.client.Close()
+	t.connect()
+	if alive, _ := t.ping(0x7fffffff); !alive {
+		viol("node-wedged", "after the hostile message stream the node does not answer GetStatus on a fresh connection", len(cases)-1)
+	}
 	payload, _ := rlp.EncodeToBytes([]any{uint32(0), false, next})
 	go t.client.WriteMsg(p2p.Msg{Code: proto.MsgNewBlock, Size: uint32(len(payload)), Payload: bytes.NewReader(payload)})
-	for w := 0; w < 100; w++ {
+	for w := 0; w < 200; w++ {
 		if lc.Repo().BestBlockSummary().Header.ID() == next.Header().ID() {
 			res.Control = true
 			break
@@ -597,6 +614,13 @@ func runChildOnce(ctx *hx.Ctx, cases []MsgCase) (*childResult, string, bool) {
 		json.Unmarshal(b, &res)
 	}
 	tail := stderr.String()
+	if os.Getenv("C19_DIAG") != "" {
+		for _, l := range strings.Split(tail, "\n") {
+			if strings.HasPrefix(l, "DIAG") {
+				fmt.Fprintln(os.Stderr, l)
+			}
+		}
+	}
 	if len(tail) > 3000 {
 		tail = tail[:3000]
 	}
